@@ -454,6 +454,19 @@ def rule_d(ctx):
                 ctx.ob(R, f.qname, "the stack of slices is stored as it is (numpy's common dtype of the slices)", not own,
                        f"`{own[0] if own else ''}` converts the stacked slices to the dtype of the series so far: appended data that does not fit that dtype is truncated or rounded, "
                        "so slicing the series no longer returns the image that was appended", asg, evidence=True)
+    # the same contradiction with a pre-allocated array: what becomes self.img is allocated with the dtype of the series so far and the new
+    # slices are stored into it
+    for asg in ast.walk(f.node):
+        if isinstance(asg, ast.Assign) and any(norm(t) == "self.img" for t in asg.targets) and isinstance(asg.value, ast.Name):
+            for d_ in ast.walk(f.node):
+                if isinstance(d_, ast.Assign) and any(isinstance(t, ast.Name) and t.id == asg.value.id for t in d_.targets) and isinstance(d_.value, ast.Call) \
+                        and norm(d_.value.func) in ("np.empty", "np.zeros", "np.full", "np.ones", "np.empty_like", "np.zeros_like"):
+                    dt = next((expand(f.node, k.value) for k in d_.value.keywords if k.arg == "dtype"), None)
+                    like_self = norm(d_.value.func).endswith("_like") and d_.value.args and "self." in norm(expand(f.node, d_.value.args[0]))
+                    own = (dt is not None and "self." in norm(dt) and "dtype" in norm(dt)) or (like_self and dt is None)
+                    ctx.ob(R, f.qname, "the array that receives the appended slices has numpy's common dtype of all slices", not own,
+                           f"`{norm(d_)[:100]}` allocates the extended series with the dtype of the series so far: slices of another dtype are cast on the store "
+                           "(float data appended to an integer series is truncated), so slicing the series no longer returns the image that was appended", d_, evidence=True)
     texts = [norm(n) for n in ast.walk(f.node) if isinstance(n, (ast.Assign, ast.AugAssign, ast.Expr))]
     ctx.ob(R, f.qname, "dates: self first, then image", f"self.date = self.date + {other}.date" in texts and f"self.date.append({other}.date)" in texts
            or any(t.startswith("self.date = ") and t.index("self.date", 11) < t.index(f"{other}.date") for t in texts if f"{other}.date" in t and t.count("self.date") > 1),
